@@ -119,9 +119,16 @@ def execute(c):
             A = M.affine_from_axis(xx, yy, resyx_(c["ry"] / 2, c["rx"] / 2))
             ev["o"] = {"A": [_lat(v, 4) for v in A[:6]]}
         elif op == "bin1d":
-            b = M.Bin1D(c["sz"] / 4, c["o"] / 4, c["dir"])
+            # the documented defaults (origin 0, direction +1) are left to the callee for every other case that has them
+            dflt = c["dir"] == 1 and (c["sz"] + c["idx"]) % 2 == 0
+            if dflt and c["o"] == 0:
+                b = M.Bin1D(c["sz"] / 4)
+            elif dflt:
+                b = M.Bin1D(c["sz"] / 4, c["o"] / 4)
+            else:
+                b = M.Bin1D(c["sz"] / 4, c["o"] / 4, c["dir"])
             lo, hi = b[c["idx"]]
-            b2 = M.Bin1D.from_sample_bin(c["idx"], (lo, hi), c["dir"])
+            b2 = M.Bin1D.from_sample_bin(c["idx"], (lo, hi)) if dflt else M.Bin1D.from_sample_bin(c["idx"], (lo, hi), c["dir"])
             pts = []
             for x in range(c["o"] - 3 * c["sz"], c["o"] + 3 * c["sz"] + 1):
                 i = b.bin(x / 4)
